@@ -214,12 +214,52 @@ Fixpoint set_trie (hs : list bytes) (st : tstate) : tstate :=
 
 Definition idH (x : bytes) : bytes := x.
 
+(* ---------- the writer: the producer's file must be what [write_file] makes of its content ---------- *)
+Fixpoint group_recs (rs : list brec) (acc : list (bytes * bytes * list (N * bytes))) : list (bytes * bytes * list (N * bytes)) :=
+  match rs with
+  | [] => rev acc
+  | r :: rs' =>
+      match acc with
+      | (a, e, l) :: acc' => if beqb a (b_addr r) then group_recs rs' ((a, e, l ++ b_res r) :: acc')
+                             else group_recs rs' ((b_addr r, b_enc r, b_res r) :: acc)
+      | [] => group_recs rs' [(b_addr r, b_enc r, b_res r)]
+      end
+  end.
+
+Definition world_of_file (f : list section) : world :=
+  mkWorld (group_recs (all_recs f) [])
+          (flat_map (fun s => match s with SBal _ kvs _ _ => kvs | _ => [] end) f)
+          (flat_map (fun s => match s with SBal _ _ oa _ => oa | _ => [] end) f)
+          (flat_map (fun s => match s with SBal _ _ _ orp => orp | _ => [] end) f)
+          (match List.find (fun s => match s with SSp _ _ => true | _ => false end) f with Some (SSp d _) => d | _ => [128] end)
+          (match f with SHdr _ _ _ t :: _ => t | _ => [] end).
+
+Definition term_of_rec (r : brec) : term :=
+  TL [TB (b_addr r); TB (b_enc r); tb (b_more r); TL (map (fun e => TL [tn (fst e); TB (snd e)]) (b_res r))].
+Definition term_of_section (s : section) : term :=
+  match s with
+  | SHdr v br kr t => TL [TS "hdr"; tn v; tn br; tn kr; TB t]
+  | SSp d _ => TL [TS "sp"; TB d]
+  | SBal bals kvs oa orp => TL [TS "bal"; TL (map term_of_rec bals); term_of_kvs kvs; TL (map TB oa); TL (map TB orp)]
+  | SRaw => TS "raw"
+  | SOther => TS "other"
+  end.
+
+Definition writer_agrees (kind : string) (maxres B : N) (hf : list section) : bool :=
+  match hf with
+  | SHdr v br kr _ :: _ =>
+      let R := if String.eqb kind "tracker" then N.to_nat 100000 else N.to_nat maxres in
+      term_eqb (TL (map term_of_section (write_file v (N.to_nat B) R br kr (world_of_file hf))))
+               (TL (map term_of_section hf))
+  | _ => false
+  end.
+
 Definition stage_sym (s : stage) : string :=
   match s with StProcess => "process" | StTrie => "trie" | StVerify => "verify" end.
 
 Definition check (t : term) : term :=
   match t with
-  | TL [TS "c16"; TS kind; TS mname; TL _; TL [src; orc; TL [rnd; TB digest; TB label]]; TL honest; TL file; outcome] =>
+  | TL [TS "c16"; TS kind; TS mname; TL [_; _; pmaxres; pB]; TL [src; orc; TL [rnd; TB digest; TB label]]; TL honest; TL file; outcome] =>
       match as_dump src, as_dump orc, as_N rnd, as_file honest t_empty_tables with
       | Some src, Some orc, Some rnd, Some (hf, T0) =>
           match as_file file T0 with
@@ -238,35 +278,44 @@ Definition check (t : term) : term :=
               (* ---- model ---- *)
               (* the label the producer made: root of the SET of hashes of its own file *)
               let lab0 :=
-                match process_all tot fl lA lR lK hf (a_init) with
+                match process_all true tot fl lA lR lK hf (a_init) with
                 | Some a0 => staged_label idH a0 (set_trie (a_hashes a0) MerkleTrie.t_empty) digest
                 | None => []
                 end in
-              let m := restore idH tot fl lA lR lK ff lab0 rnd digest in
-              let mterm :=
+              let m := restore true idH tot fl lA lR lK ff lab0 rnd digest in
+              let term_of_outcome (m : CatchpointFile.outcome (world * tstate)) :=
                 match m with
                 | Rejected s => TL [TS "rejected"; TS (stage_sym s)]
                 | Accepted (w, _) =>
                     TL [TS "accepted"; TL [TS "world"; term_of_accts (canon_accts (w_accts w)); term_of_kvs (canon_kvs (w_kvs w));
                                            TL (map TB (w_oa w)); TL (map TB (w_orp w)); TB (w_totals w)]]
                 end in
+              let mterm := term_of_outcome m in
+              (* the accessor without fixes/C16.patch *)
+              let uterm := term_of_outcome (restore false idH tot fl lA lR lK ff lab0 rnd digest) in
               let iterm :=
                 match outcome with
                 | TL [TS "accepted"; TL [TS "world"; a; k; o; p; tot; _]] => TL [TS "accepted"; TL [TS "world"; a; k; o; p; tot]]
                 | x => x
                 end in
-              let corr := term_eqb mterm iterm in
+              let wr_ok := negb is_honest ||
+                           match as_N pmaxres, as_N pB with
+                           | Some mr, Some pb => writer_agrees kind mr pb hf
+                           | _, _ => false
+                           end in
+              let corr := term_eqb mterm iterm && wr_ok in
               let nontrivial := negb is_honest || (2 <=? List.length (all_recs ff))%nat in
               if spec_ok then verdict true corr nontrivial mterm
-              else if negb corr || negb src_ok then v_viol mterm
+              else if negb src_ok then v_viol mterm
+              else if negb corr then
+                (* the unrepaired accessor: a record with ExpectingMoreEntries whose account data is never hashed *)
+                if term_eqb uterm iterm && partial_unbound (all_recs ff) then v_known "c16_partial_record_data_unbound" uterm
+                else v_viol mterm
               else
                 (* the spec fails and the model reproduces the observation: which finding is it? *)
                 match impl_restored with
                 | Some w =>
                     if kv_has_collision (d_kvs src) then v_known "c16_kv_collision_honest_file_rejected" mterm
-                    else if partial_unbound (all_recs ff) &&
-                            term_eqb (term_of_kvs (d_kvs w)) (term_of_kvs (d_kvs src)) then
-                      v_known "c16_partial_record_data_unbound" mterm
                     else if term_eqb (term_of_accts (d_accts w)) (term_of_accts (d_accts src)) &&
                             same_concats (d_kvs w) (d_kvs src) && beqb (d_totals w) (d_totals src) then
                       v_known "c16_kv_boundary_shift_accepted" mterm
